@@ -44,7 +44,7 @@ def h_int_ba(ctx, size):
 
 def _mask(ctx, tag, maxw):
     w = ctx.int(tag + "w", 8, lo=1, hi=maxw)
-    lo = ctx.int(tag + "lo", 3)
+    lo = ctx.int(tag + "lo", 5)  # low end of the run: bit 0..31, i.e. masks whose low-order bytes are empty too
     ones = (1 << w) - 1
     return w, lo, ones, ones << lo
 
@@ -60,7 +60,7 @@ def _span(mask):
 
 def h_field(ctx, maxw, off):
     """laws (1)-(4) for one symbolic contiguous mask at byte offset `off`"""
-    L = max(22, maxw // 8 + 5)   # buffer length: room for the widest mask at any offset used
+    L = max(22, maxw // 8 + 9)   # buffer length: room for the widest mask at any offset used
     w, lo, ones, mask = _mask(ctx, "", maxw)
     v = ctx.int("v", maxw)
     ctx.assume(v <= ones)
@@ -96,7 +96,7 @@ def h_field(ctx, maxw, off):
     ctx.check("decode reads exactly the field bits", d["f"] == ctx.oracle(((A >> shift) & mask) >> lo))
 
     # (4) decode after encode returns the value
-    d2 = {}
+    d2 = dict(d)  # the result dict still holds the earlier decode of another buffer: it must be overwritten
     cv.decode_bits(buf2, lay, d2)
     ctx.check("decode(encode(v)) == v", d2["f"] == ctx.oracle(v))
 
